@@ -201,13 +201,12 @@ def check_index(A, rows, form, idx, ctx, case, lengths, rank):
         return
     if obs[0] == 'ragged':
         try:
-            fl = np.asarray(got.flatten()).tolist()
+            flat_got = np.asarray(got.flatten()).tolist()
             ln = [int(x) for x in got.lengths]
             wfl = np.ravel(np.array(rr.flat_of(rr.canon_rows(exp)))).tolist() if len(rr.flat_of(exp)) else []
-            if ln != [len(r) for r in exp] or np.ravel(np.array(fl)).tolist() != wfl:
-                ctx.violation('getitem:%s:result_views_disagree:%s' % (form, '+'.join(fl_flags(fl_list := fl))) if False else
-                              'getitem:%s:result_views_disagree' % form, case,
-                              'index %r: rows %r but lengths %r / flatten %r' % (idx, obs[1], ln, fl))
+            if ln != [len(r) for r in exp] or np.ravel(np.array(flat_got)).tolist() != wfl:
+                ctx.violation('getitem:%s:result_views_disagree' % form, case,
+                              'index %r: rows %r but lengths %r / flatten %r' % (idx, obs[1], ln, flat_got))
                 return
         except Exception as e:
             kind = 'norows' if len(exp) == 0 else ('emptyrow' if any(len(r) == 0 for r in exp) else 'other')
